@@ -65,8 +65,11 @@ inductive EAStmt
   | returnSelfIfNone
   /-- `unprepared = ensure_iterable(events)` -/
   | ensureIterable
-  /-- `for events in unprepared: for event in events.split(" "):` with the body below -/
+  /-- `for events in unprepared: for event in events.split(" "):` with the body below (a run of blanks yields an event
+  named `""`: D46) -/
   | forEachSplitOnSpace (body : List EABody)
+  /-- `for events in unprepared: for event in events.split():` — split on runs of whitespace, none at the ends -/
+  | forEachSplitOnWhitespace (body : List EABody)
   | retSelf
 deriving DecidableEq, Repr
 /-- `Events._replace(old, new)`: `self._items.remove(old)`, `self._items.append(new)` -/
